@@ -1,5 +1,5 @@
 /-
-C11 — the Lévy copulas are Lévy copulas: grounded, 2-increasing, uniform margins.   Property theorems only.
+C11 — the Lévy copulas are Lévy copulas: grounded, d-increasing (d = 2, 3), uniform margins.   Property theorems only.
 Model: RpylibModel/Model/Copula.lean.  Helper lemmas: Proofs/Lemmas/C11*.lean.
 
 Two layers.  (i) `claytonOf G scale η`: the Clayton formula over an abstract generator pair `G` (`g u = |u|^(-θ)`,
@@ -8,9 +8,13 @@ whose generator pair satisfies `ClaytonGen` (the only analytic hypotheses: `psi 
 slope (convexity) property of `psi`).  (ii) `clayton1`, `indep`, `dep`: the executable models the driver runs
 (θ = 1 over ℚ with IEEE infinities/NaN), for which `gen1_clayton` discharges every hypothesis.
 
-Not proved here (see NOT_PROVED in harness/props/c11.py): 2-increasing in d = 3; dependent copula on rectangles with
-infinite end points; `ClaytonGen` for θ ≠ 1 (convexity of s^(-1/θ)); the mixed derivative; monotonicity/limits of the
-conditional distribution.
+New in round 2: dependent copula on the whole extended plane (`dep_two_increasing_all`); d = 3: Clayton
+(`claytonOf_three_increasing` under `Slope3`, `clayton1_three_increasing`, `clayton_real_three_increasing`), dependent
+(`dep_three_increasing`, `dep_three_increasing_all`), independent (`indep_three_increasing`); the conditional distribution is a
+distribution function (`cond_dist_is_monotone`, `clayton_real_cond_monotone`, `clayton_real_cond_limits`).
+
+Not proved here (see NOT_PROVED in harness/props/c11.py): Clayton boxes with an all-infinite corner in d = 3; the mixed
+derivative; the conditional distribution as a derivative of F.
 -/
 import RpylibModel.Model.Copula
 import RpylibModel.Proofs.Lemmas.C11Vol
@@ -21,6 +25,14 @@ import RpylibModel.Proofs.Lemmas.C11IndepDep
 import RpylibModel.Proofs.Lemmas.C11Convex
 import RpylibModel.Proofs.Lemmas.C11Real
 import RpylibModel.Proofs.Lemmas.C11Inf
+import RpylibModel.Proofs.Lemmas.C11Dep3
+import RpylibModel.Proofs.Lemmas.C11Indep3
+import RpylibModel.Proofs.Lemmas.C11DepInf
+import RpylibModel.Proofs.Lemmas.C11Cond
+import RpylibModel.Proofs.Lemmas.C11Clayton3
+import RpylibModel.Proofs.Lemmas.C11Real3
+import RpylibModel.Proofs.Lemmas.C11Theta1D3
+import RpylibModel.Proofs.Lemmas.C11Dep3Inf
 import Mathlib.Data.Real.Sign
 import Mathlib.Tactic.Linarith
 import Mathlib.Tactic.Ring
@@ -202,6 +214,86 @@ theorem dep_two_increasing (a1 b1 a2 b2 : Rat) (h1 : a1 ≤ b1) (h2 : a2 ≤ b2)
   have := depq_two_increasing a1 b1 a2 b2 h1 h2
   linarith
 
+/-- **completely dependent copula, d = 2, every rectangle of (−∞,∞]²** (sides `(a,b]` with `a ≠ +∞`, `b ≠ −∞`; infinite
+    end points included): the volume the code computes is a non-negative number or +∞ (exactly when `b1 = b2 = +∞` or
+    `a1 = a2 = −∞`), never NaN -/
+theorem dep_two_increasing_all (a1 b1 a2 b2 : Ext Rat) (l1 : Ext.LE a1 b1) (l2 : Ext.LE a2 b2)
+    (na1 : a1 ≠ .posInf) (na2 : a2 ≠ .posInf) (nb1 : b1 ≠ .negInf) (nb2 : b2 ≠ .negInf) :
+    EVal.Nonneg (volume dep [a1, a2] [b1, b2]) := dep_two_increasing_all_aux a1 b1 a2 b2 l1 l2 na1 na2 nb1 nb2
+
+/-- the excluded sides are excluded for a reason: on `(+∞, +∞]` the code evaluates `inf − inf` -/
+theorem dep_empty_side_at_inf_nan : volume dep [.posInf, .fin 1] [.posInf, .posInf] = .nan := by decide +kernel
+
+/-! ## 3-increasing (d = 3): non-negative volume of every box -/
+
+/-- **completely dependent copula, d = 3**: every finite box (any sign pattern of the six end points) gets a
+    non-negative volume.  `dep = min(u⁺,v⁺,w⁺) − min(u⁻,v⁻,w⁻)` and `min` of three is 3-increasing. -/
+theorem dep_three_increasing (a1 b1 a2 b2 a3 b3 : Rat) (h1 : a1 ≤ b1) (h2 : a2 ≤ b2) (h3 : a3 ≤ b3) :
+    EVal.Nonneg (volume dep [.fin a1, .fin a2, .fin a3] [.fin b1, .fin b2, .fin b3]) := by
+  simp only [volume, corners, List.map, List.length_cons, List.length_nil, sumList, List.cons_append,
+    List.nil_append, dep_fin_three]
+  simp [EVal.Nonneg]
+  have := depq3_three_increasing a1 b1 a2 b2 a3 b3 h1 h2 h3
+  linarith
+
+/-- **completely dependent copula, d = 3, every box of (−∞,∞]³** (sides `(a,b]` with `a ≠ +∞`, `b ≠ −∞`; infinite end
+    points included): the volume the code computes is a non-negative number or +∞ (exactly when the box has the corner
+    (+∞,+∞,+∞) or (−∞,−∞,−∞)), never NaN.  Truncation at ±M beyond all finite end points. -/
+theorem dep_three_increasing_all (a1 b1 a2 b2 a3 b3 : Ext Rat) (l1 : Ext.LE a1 b1) (l2 : Ext.LE a2 b2)
+    (l3 : Ext.LE a3 b3) (na1 : a1 ≠ .posInf) (na2 : a2 ≠ .posInf) (na3 : a3 ≠ .posInf) (nb1 : b1 ≠ .negInf)
+    (nb2 : b2 ≠ .negInf) (nb3 : b3 ≠ .negInf) : EVal.Nonneg (volume dep [a1, a2, a3] [b1, b2, b3]) :=
+  dep_three_increasing_all_aux a1 b1 a2 b2 a3 b3 l1 l2 l3 na1 na2 na3 nb1 nb2 nb3
+
+/-- **independent copula, d = 3, extended line**: every box of (−∞,∞]³ without one of the corners at which the code
+    deviates from Kallsen–Tankov (`indepBad3`: all entries infinite, at least two of them +∞) gets a non-negative
+    volume (finite boxes have volume 0; the mass sits on the axes, i.e. on boxes with two sides reaching +∞) -/
+theorem indep_three_increasing (a1 b1 a2 b2 a3 b3 : Ext Rat) (l1 : Ext.LE a1 b1) (l2 : Ext.LE a2 b2)
+    (l3 : Ext.LE a3 b3) (n1 : a1 ≠ .posInf) (n2 : a2 ≠ .posInf) (n3 : a3 ≠ .posInf)
+    (hb : ¬ indepBad3 a1 b1 a2 b2 a3 b3) : EVal.Nonneg (volume indep [a1, a2, a3] [b1, b2, b3]) :=
+  indep_three_increasing_aux a1 b1 a2 b2 a3 b3 l1 l2 l3 n1 n2 n3 hb
+
+/-- non-vacuity: a box carrying mass of the first axis -/
+example : volume indep [.fin 1, .fin (-2), .fin 3] [.fin 4, .posInf, .posInf] = .fin 3 := by decide +kernel
+
+/-- d = 3 negation witness at the excluded corners (finding): the box (1,∞]×(1,∞]×(2,∞] gets volume −4 -/
+theorem indep_allinf_corner_negative_volume_d3 :
+    volume indep [.fin 1, .fin 1, .fin 2] [.posInf, .posInf, .posInf] = .fin (-4) := by decide +kernel
+
+/-- **Abstract-generator Clayton, d = 3 with the coded scale 2^(2-3)**, every θ whose generator pair satisfies
+    `ClaytonGen` and `Slope3` (third-order differences of `psi` ≤ 0: complete monotonicity of `s^(-1/θ)` up to order
+    3), every 0 ≤ η ≤ 1: every box of the extended space — any sign pattern of the six end points, straddling or not,
+    infinite end points included — that has no corner with three infinite entries gets non-negative volume -/
+theorem claytonOf_three_increasing {K : Type} [Field K] [LinearOrder K] [IsStrictOrderedRing K] {G : Gen K}
+    (hG : ClaytonGen G) (h3 : Slope3 G.psi) (eta : K) (h0 : 0 ≤ eta) (h1 : eta ≤ 1) (a1 b1 a2 b2 a3 b3 : Ext K)
+    (hP : Adm3 a1 b1 a2 b2 a3 b3) (l1 : Ext.LE a1 b1) (l2 : Ext.LE a2 b2) (l3 : Ext.LE a3 b3) :
+    0 ≤ volume (claytonOf G (1 / 2) eta) [a1, a2, a3] [b1, b2, b3] := by
+  rw [volume_three]; exact F3_three_increasing hG h3 eta h0 h1 a1 b1 a2 b2 a3 b3 hP l1 l2 l3
+
+/-- θ = 1 over ℚ has the third-order property (`1/s`), as has every θ > 0 over ℝ (`s^(-1/θ)`, Real.rpow) -/
+theorem clayton_theta1_slope3 : Slope3 gen1.psi := slope3_gen1
+
+theorem clayton_real_slope3 (θ : ℝ) (hθ : 0 < θ) : Slope3 (genReal θ).psi := slope3_genReal θ hθ
+
+/-- **Clayton θ = 1 as the floats compute it, d = 3**: the model's `volume` of every admissible box of the extended
+    space is a finite non-negative number, for every η ∈ [0,1] -/
+theorem clayton1_three_increasing (eta : Rat) (h0 : 0 ≤ eta) (h1 : eta ≤ 1) (a1 b1 a2 b2 a3 b3 : Ext Rat)
+    (hP : Adm3 a1 b1 a2 b2 a3 b3) (l1 : Ext.LE a1 b1) (l2 : Ext.LE a2 b2) (l3 : Ext.LE a3 b3) :
+    EVal.Nonneg (volume (clayton1 eta) [a1, a2, a3] [b1, b2, b3]) := by
+  rw [clayton1_volume_three eta a1 a2 a3 b1 b2 b3 hP]
+  exact F3_three_increasing gen1_clayton slope3_gen1 eta h0 h1 a1 b1 a2 b2 a3 b3 hP l1 l2 l3
+
+/-- non-vacuity / sanity of the d = 3 float model: one straddling side, one side reaching +∞ -/
+example : EVal.Nonneg (volume (clayton1 (1/2)) [.fin (-1), .fin 1, .fin 1] [.fin 1, .fin 2, .posInf]) :=
+  clayton1_three_increasing (1/2) (by norm_num) (by norm_num) _ _ _ _ _ _ (Or.inl ⟨rfl, rfl⟩)
+    (by simp [Ext.LE]) (by simp [Ext.LE]) trivial
+
+/-- **Clayton copula, every θ > 0, every η ∈ [0,1], real arithmetic, d = 3**: non-negative volume of every box of the
+    extended space that has no corner with three infinite entries -/
+theorem clayton_real_three_increasing (θ : ℝ) (hθ : 0 < θ) (eta : ℝ) (h0 : 0 ≤ eta) (h1 : eta ≤ 1)
+    (a1 b1 a2 b2 a3 b3 : Ext ℝ) (hP : Adm3 a1 b1 a2 b2 a3 b3) (l1 : Ext.LE a1 b1) (l2 : Ext.LE a2 b2)
+    (l3 : Ext.LE a3 b3) : 0 ≤ volume (claytonOf (genReal θ) (1 / 2) eta) [a1, a2, a3] [b1, b2, b3] :=
+  claytonOf_three_increasing (genReal_clayton θ hθ) (slope3_genReal θ hθ) eta h0 h1 a1 b1 a2 b2 a3 b3 hP l1 l2 l3
+
 /-! ## The conditional distribution and its stated inverse (levycopula.py:89-136), over abstract powers -/
 
 /-- `p = (·)^θ`, `q = (·)^(-1-1/θ)`, `q' = (·)^(-θ/(θ+1))`, `r' = (·)^(-1/θ)` enter only through
@@ -331,5 +423,47 @@ theorem clayton_real_cond_inverse (θ : ℝ) (hθ : 0 < θ) (eta e x : ℝ) (h0 
   · intro v hv; exact Real.sign_of_pos hv
   · intro v hv; exact Real.sign_of_neg hv
   all_goals assumption
+
+/-! ## The conditional distribution is a distribution function in its second argument -/
+
+/-- abstract powers (`CondPowers`: `p` non-decreasing and ≥ 0 on [0,∞), `q` non-increasing with values in [0,1] on
+    [1,∞)), 0 ≤ η ≤ 1, every ε: `x ↦ F_ε(x)` takes values in [0,1] and is non-decreasing on `x ≠ 0`
+    (at `x = 0` the code divides by zero; jumps are never 0) -/
+theorem cond_dist_is_monotone {K : Type} [Field K] [LinearOrder K] [IsStrictOrderedRing K] {p q : K → K}
+    (h : CondPowers p q) (eta e : K) (h0 : 0 ≤ eta) (h1 : eta ≤ 1) :
+    (∀ x, 0 ≤ condDist p q (fun a b => |a / b|) eta e x ∧ condDist p q (fun a b => |a / b|) eta e x ≤ 1) ∧
+    (∀ x y, x ≠ 0 → y ≠ 0 → x ≤ y →
+      condDist p q (fun a b => |a / b|) eta e x ≤ condDist p q (fun a b => |a / b|) eta e y) :=
+  ⟨fun x => cond_dist_range h eta e x h0 h1, fun x y hx hy hxy => cond_dist_mono h eta e x y h0 h1 hx hy hxy⟩
+
+/-- Clayton θ = 1, the executable model the driver runs (`condDist1`, compared exactly with the implementation):
+    values in [0,1], non-decreasing on x ≠ 0 -/
+theorem condDist1_is_monotone (eta e : Rat) (h0 : 0 ≤ eta) (h1 : eta ≤ 1) :
+    (∀ x, 0 ≤ condDist1 eta e x ∧ condDist1 eta e x ≤ 1) ∧
+    (∀ x y, x ≠ 0 → y ≠ 0 → x ≤ y → condDist1 eta e x ≤ condDist1 eta e y) := by
+  simp only [condDist1_eq]
+  exact cond_dist_is_monotone condPowers_theta1 eta e h0 h1
+
+/-- **every θ > 0, every η ∈ [0,1], every ε, real powers**: the coded conditional distribution takes values in [0,1]
+    and is non-decreasing in x on x ≠ 0 -/
+theorem clayton_real_cond_monotone (θ : ℝ) (hθ : 0 < θ) (eta e : ℝ) (h0 : 0 ≤ eta) (h1 : eta ≤ 1) :
+    (∀ x, 0 ≤ condDist (fun t => t ^ θ) (fun y => y ^ (-1 - 1 / θ)) (fun a b => |a / b|) eta e x ∧
+          condDist (fun t => t ^ θ) (fun y => y ^ (-1 - 1 / θ)) (fun a b => |a / b|) eta e x ≤ 1) ∧
+    (∀ x y, x ≠ 0 → y ≠ 0 → x ≤ y →
+      condDist (fun t => t ^ θ) (fun y => y ^ (-1 - 1 / θ)) (fun a b => |a / b|) eta e x ≤
+        condDist (fun t => t ^ θ) (fun y => y ^ (-1 - 1 / θ)) (fun a b => |a / b|) eta e y) :=
+  cond_dist_is_monotone (condPowers_real θ hθ) eta e h0 h1
+
+/-- **every θ > 0, every η, every ε**: `F_ε(x) → 0` as `x → −∞` and `F_ε(x) → 1` as `x → +∞` -/
+theorem clayton_real_cond_limits (θ : ℝ) (hθ : 0 < θ) (eta e : ℝ) :
+    Filter.Tendsto (fun x => condDist (fun t : ℝ => t ^ θ) (fun y => y ^ (-1 - 1 / θ)) (fun a b => |a / b|) eta e x)
+      Filter.atBot (nhds 0) ∧
+    Filter.Tendsto (fun x => condDist (fun t : ℝ => t ^ θ) (fun y => y ^ (-1 - 1 / θ)) (fun a b => |a / b|) eta e x)
+      Filter.atTop (nhds 1) :=
+  ⟨cond_real_tendsto_atBot θ hθ eta e, cond_real_tendsto_atTop θ hθ eta e⟩
+
+/-- θ = 1 sanity values of the executable model: ε = 1, η = 1/4: F(−1) = 9/16 ≤ F(1) = 13/16 -/
+example : condDist1 (1/4) 1 (-1) = 9/16 ∧ condDist1 (1/4) 1 1 = 13/16 := by
+  constructor <;> norm_num [condDist1, condDist, rabs]
 
 end Rpylib.Copula
